@@ -97,6 +97,9 @@ pub struct BScenario {
     pub connect_fail_calls: Vec<u32>,
     /// r2d2 `is_valid` / diesel CustomFunction: indices of calls that report an error
     pub valid_err_calls: Vec<u32>,
+    /// diesel CustomFunction: indices of calls of the callback that panic
+    #[serde(default)]
+    pub valid_panic_calls: Vec<u32>,
     /// r2d2: indices of `has_broken` calls that report `true` although no closure marked the connection
     pub broken_true_calls: Vec<u32>,
     pub knobs: Knobs,
@@ -600,10 +603,19 @@ fn d_exec(c: &mut diesel::SqliteConnection, q: &str) {
 fn d_custom_check(c: &mut diesel::SqliteConnection) -> Result<(), deadpool_diesel::Error> {
     engine::point("harness.closure.begin");
     let serial = d_read_marker(c) as u32;
+    let mut panic_now = false;
     let bad = with_w(|w| {
         let n = w.valid_calls;
         w.valid_calls += 1;
-        if w.sc.valid_err_calls.contains(&n) {
+        if w.sc.valid_panic_calls.contains(&n) {
+            w.fault("custom_check_panics");
+            if serial != 0 {
+                w.mark_reported(serial, "custom_check_panicked");
+            }
+            trace!("  custom check(#{}) call #{} -> panics (scripted)", serial, n);
+            panic_now = true;
+            false
+        } else if w.sc.valid_err_calls.contains(&n) {
             w.fault("custom_check_err");
             if serial != 0 {
                 w.mark_reported(serial, "custom_check_err");
@@ -614,6 +626,9 @@ fn d_custom_check(c: &mut diesel::SqliteConnection) -> Result<(), deadpool_diese
             false
         }
     });
+    if panic_now {
+        std::panic::panic_any(InjectedPanic(serial));
+    }
     engine::point("harness.closure.end");
     if bad {
         Err(deadpool_diesel::Error::Ping(diesel::result::Error::NotFound))
@@ -786,7 +801,7 @@ fn set_phase(actor: usize, p: Phase) {
 }
 
 fn begin_get(actor: usize, cancellable: bool, audit: bool) -> u32 {
-    with_w(|w| {
+    let g = with_w(|w| {
         w.ops += 1;
         let t0 = w.tick();
         let mut idle_dead = 0;
@@ -811,7 +826,12 @@ fn begin_get(actor: usize, cancellable: bool, audit: bool) -> u32 {
         let g = (w.gets.len() - 1) as u32;
         engine::log_event(&[420, actor as u64, g as u64]);
         g
-    })
+    });
+    // nothing in these pools has a deadline; offering the controller a distant instant lets time
+    // pass while blocking jobs are still queued (a change that adds a deadline of its own then
+    // meets a slow blocking pool)
+    engine::register_deadline(400);
+    g
 }
 
 /// Judges a hand-out. Returns the serial.
@@ -1595,7 +1615,7 @@ pub fn gen_knobs(rng: &mut Rng) -> Knobs {
         stick: rng.range(600, 950) as u32,
         pct_depth: rng.range(1, 3) as u8,
         p_env: *rng.pick(&[50u32, 150, 300, 500]),
-        p_time: 0,
+        p_time: *rng.pick(&[0u32, 0, 100, 300]),
         p_spurious: *rng.pick(&[0u32, 0, 30, 150]),
         p_cancel: *rng.pick(&[0u32, 100, 300, 600]),
         step_cap: 30_000,
@@ -1683,6 +1703,7 @@ pub fn gen_backends(rng: &mut Rng, thorough: bool) -> BScenario {
         clients,
         connect_fail_calls,
         valid_err_calls,
+        valid_panic_calls: if matches!(backend, Backend::Diesel { method: DMethod::CustomFunction }) && rng.below(100) < 40 { gen_calls(rng, 10, 12) } else { Vec::new() },
         broken_true_calls,
         knobs: gen_knobs(rng),
         sched_seed: rng.next(),
@@ -1709,6 +1730,7 @@ pub fn grid_scenarios() -> Vec<BScenario> {
         clients: vec![ops],
         connect_fail_calls: connect,
         valid_err_calls: valid,
+        valid_panic_calls: Vec::new(),
         broken_true_calls: broken,
         knobs: base_knobs.clone(),
         sched_seed: 1,
@@ -1823,6 +1845,7 @@ impl Harness for Backends {
             (sc.connect_fail_calls.clone(), 0u8),
             (sc.valid_err_calls.clone(), 1u8),
             (sc.broken_true_calls.clone(), 2u8),
+            (sc.valid_panic_calls.clone(), 3u8),
         ] {
             if get.is_empty() {
                 continue;
@@ -1830,6 +1853,7 @@ impl Harness for Backends {
             let apply = |c: &mut BScenario, v: Vec<u32>| match set {
                 0 => c.connect_fail_calls = v,
                 1 => c.valid_err_calls = v,
+                3 => c.valid_panic_calls = v,
                 _ => c.broken_true_calls = v,
             };
             let mut c = sc.clone();
@@ -1933,6 +1957,9 @@ impl Harness for Backends {
         }
         if !sc.valid_err_calls.is_empty() {
             s.push_str(&format!(" valid_err={:?}", sc.valid_err_calls));
+        }
+        if !sc.valid_panic_calls.is_empty() {
+            s.push_str(&format!(" valid_panic={:?}", sc.valid_panic_calls));
         }
         if !sc.broken_true_calls.is_empty() {
             s.push_str(&format!(" broken_true={:?}", sc.broken_true_calls));
